@@ -493,10 +493,17 @@ class ElementNode(XmlNode):
         else:
             previous = params.get(var.name, None)
             factory = self.context.class_type.any_element
+            # The attributes that are bound to fields stay with the fields
+            attrs = {
+                qname: value
+                for qname, value in self.attrs.items()
+                if not self.meta.find_attribute(qname)
+                and not self.meta.find_any_attributes(qname)
+            }
             generic = factory(
                 text=text,
                 tail=tail,
-                attributes=ParserUtils.parse_any_attributes(self.attrs, self.ns_map),
+                attributes=ParserUtils.parse_any_attributes(attrs, self.ns_map),
             )
             if previous:
                 generic.children.append(previous)
